@@ -92,6 +92,8 @@ fn main() {
                 "C13" => props::c13::run(tier, seed),
                 "C14" => props::c14::run(tier, seed),
                 "C15" => props::provider::run_c15(tier, seed),
+                "C17" => props::c17::run(tier, seed),
+                "C19" => props::c19::run(tier, seed),
                 "C20" => props::c20::run(tier, seed),
                 "C16" => props::provider::run_c16(tier, seed),
                 "C12" => props::c12::run(tier, seed),
@@ -138,9 +140,14 @@ fn main() {
             let prop = v["property"].as_str().unwrap_or("").to_string();
             let engine = v["engine"].as_str().unwrap_or("").to_string();
             let case = v["case"].clone();
+            let leaked: &'static str = Box::leak(prop.clone().into_boxed_str());
             let rep = match prop.as_str() {
+                _ if engine == "e2e-batch" => e2e::replay_batch(leaked, case),
+                _ if engine == "e2e-height" => e2e::replay_height(case),
+                _ if engine == "e2e-config" => props::c19::replay(case),
                 "C13" => props::c13::replay(&engine, case),
                 "C14" => props::c14::replay(&engine, case),
+                "C17" => props::c17::replay(&engine, case),
                 _ if engine == "world" => {
                     let p: &'static str = Box::leak(prop.clone().into_boxed_str());
                     props::worldprops::replay_world(p, case)
